@@ -141,6 +141,12 @@ def gen(ctx):
                 h, w = len(m), len(m[0])
                 feed(img_str(0, 0, w, h, lambda x, y: (m2[y][x] if (y < len(m2) and x < 12 and x < len(m2[0])) else m[y][x])))
                 break
+    # structurally valid symbols whose data carry the boundary values of every group size (first out-of-range digit
+    # group, alphanumeric pair 2025, kanji codes at the table edges) and headers cut at every bit of the end of the data:
+    # the segment readers must answer with a description or an error, never a panic
+    from checks import c07
+    d1, _, _ = c07.boundary_corpus(r)
+    L += d1
     return L
 
 
